@@ -161,4 +161,114 @@ theorem calcTokenAmount_ok {cfg : Config Rat} {ps : Pool Rat} (hp : PoolPos ps) 
       field_simp
     linarith
 
+/-- value (in USD, at pool value per share) credited for one side of a deposit: amount after the deposit fee factor at
+    the token's price, plus its share of the price impact, a positive share capped by the impact pool -/
+def sideValue (cfg : Config Rat) (ps : Pool Rat) (amount priceIn priceOut share : Rat) : Rat :=
+  if amount > 0 then
+    (amount - (if share > 0 then cfg.depositFeePos else cfg.depositFeeNeg) * amount) * priceIn
+      + creditOf share (ps.impactPool * priceOut)
+  else 0
+
+/-- GM minted by one side (0 when the side is absent) -/
+def optMint : Option (Rat × Rat × Bool) → Rat
+  | some (m, _, _) => m
+  | none => 0
+
+@[simp] theorem optMint_none : optMint none = 0 := rfl
+@[simp] theorem optMint_some (m f : Rat) (c : Bool) : optMint (some (m, f, c)) = m := rfl
+
+theorem sidePart_ok {cfg : Config Rat} {ps : Pool Rat} (hp : PoolPos ps) {pin pout amount usd total impact : Rat}
+    {res : Option (Rat × Rat × Bool)} (hpi : 0 < pin) (hpo : 0 < pout)
+    (h : sidePart (ratOps pw) cfg ps pin pout amount usd total impact = .ok res) :
+    optMint res * (ps.poolValue / ps.supply)
+      = sideValue cfg ps amount pin pout (impact * usd / total) ∧
+    (amount > 0 → total ≠ 0) ∧ (res = none ↔ ¬ amount > 0) ∧
+    (amount > 0 → impact * usd / total < 0 →
+      0 ≤ (amount - (if impact * usd / total > 0 then cfg.depositFeePos else cfg.depositFeeNeg) * amount) * pin + impact * usd / total) := by
+  unfold sidePart at h
+  unfold sideValue
+  by_cases ha : amount > 0
+  · simp only [ha, if_true, bind_ok] at h ⊢
+    obtain ⟨share, hs, ⟨m, f, c⟩, hc, hpure⟩ := h
+    obtain ⟨hne, rfl⟩ := fdiv_ok hs
+    simp only [pure, Except.pure, Except.ok.injEq] at hpure
+    subst hpure
+    obtain ⟨hf, hv, hnn⟩ := calcTokenAmount_ok hp hpi hpo hc
+    simp only [optMint_some]
+    refine ⟨?_, fun _ => hne, by simp, fun _ hneg => ?_⟩
+    · rw [hv, hf]
+    · have := hnn hneg; rw [hf] at this; exact this
+  · simp only [ha, if_false, pure, Except.pure, Except.ok.injEq] at h ⊢
+    subst h
+    simp
+
+/-- `get_mint_amount` in closed form -/
+theorem mintAmount_ok {cfg : Config Rat} {ps : Pool Rat} (hp : PoolPos ps) {la sa : Rat} {r : LPResult Rat} {tag : String}
+    (h : mintAmount (ratOps pw) cfg ps la sa = .ok (r, tag)) :
+    ∃ tag0, priceImpactUsd (ratOps pw) cfg ps (la * ps.longPrice) (sa * ps.shortPrice) = .ok (r.priceImpactUsd, tag0) ∧
+      r.longAmount = la ∧ r.shortAmount = sa ∧ r.totalUsd = la * ps.longPrice + sa * ps.shortPrice ∧
+      r.gmAmount * (ps.poolValue / ps.supply)
+        = sideValue cfg ps la ps.longPrice ps.shortPrice
+            (r.priceImpactUsd * (la * ps.longPrice) / (la * ps.longPrice + sa * ps.shortPrice))
+        + sideValue cfg ps sa ps.shortPrice ps.longPrice
+            (r.priceImpactUsd * (sa * ps.shortPrice) / (la * ps.longPrice + sa * ps.shortPrice)) ∧
+      r.gmUsd = r.gmAmount * (ps.poolValue / ps.supply) ∧
+      ((la > 0 ∨ sa > 0) → la * ps.longPrice + sa * ps.shortPrice ≠ 0) := by
+  unfold mintAmount at h
+  simp only [bind_ok] at h
+  obtain ⟨⟨impact, tag0⟩, himp, lp, hlp, sp, hsp, gp, hgp, hpure⟩ := h
+  obtain ⟨hl, hlne, _, _⟩ := sidePart_ok hp hp.longPrice hp.shortPrice hlp
+  obtain ⟨hs, hsne, _, _⟩ := sidePart_ok hp hp.shortPrice hp.longPrice hsp
+  obtain ⟨_, rfl⟩ := fdiv_ok hgp
+  simp only [pure, Except.pure, Except.ok.injEq, Prod.mk.injEq] at hpure
+  obtain ⟨rfl, _⟩ := hpure
+  refine ⟨tag0, himp, rfl, rfl, rfl, ?_, rfl, ?_⟩
+  · simp only []
+    rw [← hl, ← hs]
+    cases lp with
+    | none => cases sp with
+      | none => simp
+      | some q => obtain ⟨m, f, c⟩ := q; simp
+    | some p =>
+      obtain ⟨m, f, c⟩ := p
+      cases sp with
+      | none => simp
+      | some q => obtain ⟨m', f', c'⟩ := q; simp; ring
+  · rintro (h1 | h1)
+    · exact hlne h1
+    · exact hsne h1
+
+/-- `getOutputAmount` in closed form: the redeemed value is the pool value of the shares less the withdraw fee factor,
+    split between the two tokens in the pool's proportions -/
+theorem outputAmount_ok {cfg : Config Rat} {ps : Pool Rat} {g : Rat} {r : LPResult Rat}
+    (h : outputAmount (ratOps pw) cfg ps g = .ok r) :
+    let total := ps.longAmount * ps.longPrice + ps.shortAmount * ps.shortPrice
+    let usd := ps.poolValue * g / ps.supply
+    ps.supply ≠ 0 ∧ total ≠ 0 ∧ ps.longPrice ≠ 0 ∧ ps.shortPrice ≠ 0 ∧ r.gmAmount = g ∧
+      r.longAmount = (1 - cfg.withdrawFeeNeg) * (usd * (ps.longAmount * ps.longPrice) / total / ps.longPrice) ∧
+      r.shortAmount = (1 - cfg.withdrawFeeNeg) * (usd * (ps.shortAmount * ps.shortPrice) / total / ps.shortPrice) ∧
+      r.longAmount * ps.longPrice + r.shortAmount * ps.shortPrice = (1 - cfg.withdrawFeeNeg) * usd := by
+  intro total usd
+  unfold outputAmount at h
+  simp only [bind_ok] at h
+  obtain ⟨⟨l, s⟩, hls, gp, hgp, hpure⟩ := h
+  unfold tokenAmountsFromGm at hls
+  simp only [bind_ok] at hls
+  obtain ⟨gu, hgu, lo, hlo, so, hso, l', hl', s', hs', hp2⟩ := hls
+  obtain ⟨hsup, rfl⟩ := fdiv_ok hgu
+  obtain ⟨htot, rfl⟩ := fdiv_ok hlo
+  obtain ⟨_, rfl⟩ := fdiv_ok hso
+  obtain ⟨hlp, rfl⟩ := fdiv_ok hl'
+  obtain ⟨hsp, rfl⟩ := fdiv_ok hs'
+  simp only [pure, Except.pure, Except.ok.injEq, Prod.mk.injEq] at hp2 hpure
+  obtain ⟨rfl, rfl⟩ := hp2
+  subst hpure
+  refine ⟨hsup, htot, hlp, hsp, rfl, ?_, ?_, ?_⟩
+  · simp only []; ring
+  · simp only []; ring
+  · simp only []
+    show _ = (1 - cfg.withdrawFeeNeg) * (ps.poolValue * g / ps.supply)
+    have htot' : ps.longAmount * ps.longPrice + ps.shortAmount * ps.shortPrice ≠ 0 := htot
+    field_simp
+
 end Demeter.Gmx2
